@@ -234,6 +234,9 @@ func (c *Ctx) visitInstr(fr *frame, instr ssa.Instruction) (ret bool) {
 			if a == nil {
 				panic(tpanic("nil pointer dereference (store) at " + c.posStr(instr.Pos())))
 			}
+			if len(c.frozen) > 0 && c.frozen[a] {
+				c.unsupported("store through a merged (frozen) pointer at %s", c.posStr(instr.Pos()))
+			}
 			store(a, fr.get(instr.Val))
 		case symIdxPtr:
 			c.storeSymIdx(a, fr.get(instr.Val), instr.Pos())
